@@ -40,6 +40,8 @@ type Step struct {
 	Backup       bool              `json:"backup,omitempty"`    // retention: a backup client is configured
 	HWM          uint64            `json:"hwm,omitempty"`       // retention: high-water mark
 	Spill        int               `json:"spill,omitempty"`     // rtx: pages beyond old and new size spilled to the file and freed again
+	CloseSHM     bool              `json:"close_shm,omitempty"` // wtx: the writer's -shm descriptor is closed with the write lock still held (the process exits right after its commit)
+	NoSync       bool              `json:"no_sync,omitempty"`   // rtx: PRAGMA synchronous=OFF (journal header complete from the start, record count 0xffffffff, never rewritten)
 }
 
 type Obs struct {
@@ -329,8 +331,15 @@ func (h *Runner) genRTX(cur uint32, toWAL bool) Step {
 		pg := uint32(1 + r.Intn(int(maxU32(st.NewSize, cur))))
 		st.Writes[pg] = h.nextContent()
 	}
-	for pg := cur + 1; pg <= st.NewSize; pg++ { // appended pages are always written
+	for pg := cur + 1; pg <= st.NewSize; pg++ { // appended pages are written ...
 		st.Writes[pg] = h.nextContent()
+	}
+	if st.NewSize > cur+1 && r.Chance(30) { // ... except the ones SQLite allocated and freed again within the transaction
+		for pg := cur + 1; pg <= st.NewSize; pg++ {
+			if pg > 1 && r.Chance(50) {
+				delete(st.Writes, pg)
+			}
+		}
 	}
 	if cur > 0 {
 		switch x := r.Intn(100); {
@@ -339,12 +348,17 @@ func (h *Runner) genRTX(cur uint32, toWAL bool) Step {
 		case x < 16:
 			st.Outcome = int(lfs.RollbackAfterWrite)
 		}
+	} else if r.Chance(12) { // the transaction that would create the database is rolled back
+		st.Outcome = int(lfs.RollbackBeforeWrite) + r.Intn(2)
 	}
 	if cur > 0 && r.Chance(18) {
 		st.Spill = 1 + r.Intn(3)
 	}
 	if h.Cfg.Clients && cur > 1 && r.Chance(25) {
 		st.JSplit = 1 + r.Intn(3)
+	}
+	if st.JSplit == 0 && r.Chance(15) {
+		st.NoSync = true
 	}
 	if h.Cfg.CommitFaults && cur > 0 && st.Outcome == 0 && !toWAL && r.Chance(15) {
 		st.FailCommit = true
@@ -387,6 +401,9 @@ func (h *Runner) genWTX(cur uint32) Step {
 	}
 	if r.Chance(30) && len(st.Frames) > 1 { // repeat a page inside the tx
 		st.Frames = append(st.Frames, [2]uint64{st.Frames[0][0], h.nextContent()})
+	}
+	if r.Chance(15) {
+		st.CloseSHM = true
 	}
 	if r.Chance(20) {
 		for i := 0; i < 1+r.Intn(3); i++ {
@@ -438,7 +455,7 @@ func (h *Runner) Exec(st Step) Obs {
 				return
 			}
 			wal := h.WALMode || st.ToWAL
-			tx := lfs.Tx{Writes: map[uint32][]byte{}, NewSize: st.NewSize, Wal: wal, JournalSplit: st.JSplit}
+			tx := lfs.Tx{Writes: map[uint32][]byte{}, NewSize: st.NewSize, Wal: wal, JournalSplit: st.JSplit, NoSync: st.NoSync}
 			for pg, cid := range st.Writes {
 				tx.Writes[pg] = h.page(pg, cid, st.NewSize, wal)
 			}
@@ -514,7 +531,16 @@ func (h *Runner) Exec(st Step) Obs {
 						h.WALMode = true
 					}
 				}
-				// a finalised valid journal is one transaction for LiteFS, commit or rollback
+				// a finalised valid journal is one transaction for LiteFS, commit or rollback - except the rollback of the
+				// transaction that would have created the database: there is no database yet and nothing is published
+				if lfs.RollbackOutcome(st.Outcome) != lfs.Commit && len(h.Ref.Pages) == 0 {
+					return
+				}
+				// ... and a rollback before anything was written to the database: SQLite never synced the journal, its
+				// header has no magic, the finalisation is no transaction (with synchronous=OFF the header is complete)
+				if lfs.RollbackOutcome(st.Outcome) == lfs.RollbackBeforeWrite && !st.NoSync {
+					return
+				}
 				h.RefPos++
 				ob.Captured = true
 			}
@@ -574,7 +600,9 @@ func (h *Runner) Exec(st Step) Obs {
 				h.Pager.EndWALWrite()
 				return
 			}
+			h.Pager.CloseSHM = st.CloseSHM
 			h.Pager.EndWALWrite()
+			h.Pager.CloseSHM = false
 			h.Ref = lfs.ApplyTx(h.Ref, tx, ps)
 			h.RefPos++
 			ob.Captured = true
